@@ -349,6 +349,10 @@ def discover_and_decide(o, unit, warm, extra_defs=()):
         rounds.append({'round': rnd, 's': round(r['s'], 1), 'unwinding_failures': len(unw)})
         if not unw:
             return {'verdict': 'DECIDED', 'results': res, 'bounds': bounds, 'rounds': rounds, 'last': r}
+        # a lemma that fails while some loop is still under-unwound fails on a path that stayed inside the bounds (the unwinding assertion cuts the
+        # others), so it is a genuine counterexample: report it now (it is replayed natively like any other); only HOLDS needs the complete unwinding
+        if getattr(o, 'kind', None) != 'c13' and any(s == 'FAILURE' and ('LEMMA:' in t or 'SAFETY:' in t) for _, t, s in res):
+            return {'verdict': 'DECIDED', 'results': res, 'bounds': bounds, 'rounds': rounds, 'last': r, 'early': True}
         for pid in unw:
             key = re.sub(r'\.unwind\.(\d+)$', r'.\1', pid) if '.unwind.' in pid else pid[:-len('.recursion')]
             if pid.endswith('.recursion'):
